@@ -181,14 +181,27 @@ def r1(ctx):
         yield Ob(key_of("C13-R1", b.path, "refs-init-1"), ok, "refs: R::new(1)", where)
 
 
-@rule("C13-R2", "C13", 4, "clone adds exactly 1 to the reference count, once, before the copy is built; drop subtracts exactly 1, once, and frees (Box::from_raw, unmount) only when the previous value was 1")
+@rule("C13-R2", "C13", 4, "clone adds exactly 1 to the reference count, once, before the copy is built; drop subtracts exactly 1, once, and frees (Box::from_raw, unmount) only when the previous value was 1 "
+      "(under C12 for the shared arena: a handle the counter does not know of is still in use when the backing memory is released)", also=(("C12", "sync"),))
 def r2(ctx):
     for fl in ("sync", "unsync"):
         b = ctx.facts.one(r"^<%s::Arena as (?:std|core)::clone::Clone>::clone$" % fl)
-        ev, res = ctx.eval(b, no_inline=(r"RefCounter",))
+        # the primitives of the counter stay calls; a helper built on them (a provided or overridden method of RefCounter, a private fn) is read through
+        ev, res = ctx.eval(b, no_inline=(r"RefCounter>?::(?:fetch_add|fetch_sub|load)$",))
         adds = [e for e in res.log if e["kind"] == "call" and (e.get("atomic") == "fetch_add" or e["callee"].endswith("RefCounter::fetch_add") or e["callee"].endswith("::fetch_add"))]
         rets = [e for e in res.log if e["kind"] == "ret0" and not e["chain"]]
-        ok = len(adds) == 1 and (adds[0].get("operand") or adds[0]["args"][1]) == const(1) and all(b.dominates(adds[0]["bb"], r["bb"]) for r in rets) and not adds[0]["chain"]
+        ok = len(adds) == 1 and (adds[0].get("operand") or adds[0]["args"][1]) == const(1)
+        if ok and not adds[0]["chain"]:
+            ok = all(b.dominates(adds[0]["bb"], r["bb"]) for r in rets)
+        elif ok:
+            # inside a helper: on every path (no guard at the add, none at any call site on the way to it), and the outermost call site dominates the construction
+            top = adds[0]
+            while top.get("parent") is not None:
+                top = top["parent"]
+            ok = not ctx.guards_of(ev, adds[0]) and all(b.dominates(top["bb"], r["bb"]) for r in rets)
+        # nothing else writes the counter (a plain store of a value read earlier loses a concurrent increment)
+        other = [e for e in res.log if e not in adds and (is_atomic_write(e) or is_heap_store(e) or is_raw_write(e) or (e["kind"] == "call" and e.get("atomic") == "get_mut"))]
+        ok = ok and not other
         yield Ob(key_of("C13-R2", b.path, "clone-adds-1"), ok, "exactly one refs.fetch_add(1) dominating the construction of the clone", b.loc())
         b = ctx.facts.one(r"^<%s::Arena as (?:std|core)::ops::Drop>::drop$" % fl)
         ev, res = ctx.eval(b, no_inline=(r"::unmount$", r"RefCounter"))
